@@ -42,6 +42,8 @@ THEOREMS = [
     "AiuVerif.C06.host_only_untouched",
     "AiuVerif.C06.phase_tables_agree",
     "AiuVerif.C06.phase_tables_agree_other",
+    "AiuVerif.C06.statement_canonical",
+    "AiuVerif.C06.statement_other",
     "AiuVerif.C06.asserts_hold",
     "AiuVerif.C06.end_not_preserved_noncanonical",
 ]
@@ -88,17 +90,25 @@ def _freq_arg(f):
     return str(int(f)) if f.denominator == 1 else repr(float(f))
 
 
+_SHAPE_PROBLEMS: list[str] = []
+
+
 def _stages(freq):
+    """the registered stages cycle_count_to_wallclock .. tighten_hts_by_instr_type with their CLI kwargs"""
     key = _freq_arg(freq)
     if key not in _STAGE_CACHE:
         with contextlib.redirect_stdout(io.StringIO()):
             rec = stage.cli_stages([f"--freq={key}:1100"])
         reg = [r for r in rec if r["registered"]]
         names = [r["name"] for r in reg]
-        i = names.index("cycle_count_to_wallclock")
-        if names[i + 1] != "tighten_hts_by_instr_type":
-            raise RuntimeError(f"registration order changed: {names[i:i+2]}")
-        _STAGE_CACHE[key] = [(r["callback"], r["context"], r["kwargs"]) for r in reg[i:i + 2]]
+        idx = [names.index(n) for n in ("cycle_count_to_wallclock", "tighten_hts_by_instr_type") if n in names]
+        sub = reg[min(idx):max(idx) + 1]
+        if [r["name"] for r in sub] != ["cycle_count_to_wallclock", "tighten_hts_by_instr_type"]:
+            _SHAPE_PROBLEMS.append(f"registered sub-pipeline is {[r['name'] for r in sub]}, the model assumes "
+                                   "cycle_count_to_wallclock directly followed by tighten_hts_by_instr_type")
+        elif any(float(r["kwargs"].get("soc_frequency", -1)) != float(Fraction(freq)) for r in sub):
+            _SHAPE_PROBLEMS.append("a stage is not registered with soc_frequency = --freq[0]")
+        _STAGE_CACHE[key] = [(r["callback"], r["context"], r["kwargs"]) for r in sub]
     return _STAGE_CACHE[key]
 
 
@@ -538,6 +548,9 @@ def run(ctx: Ctx):
         ctx.case_done(case, nontrivial=True)
     ctx.extra["exhaustive"] = False
     ctx.extra["exhaustive_grid"] = "name class x 16 gap patterns x freq x host duration x k"
+    for pb in sorted(set(_SHAPE_PROBLEMS)):
+        if not any(b["what"].endswith(pb) for b in ctx.broken):
+            ctx.obligation_broken("pipeline shape: " + pb, pb)
     if ctx.search_mode or not ctx.driver or not ctx.driver.ok:
         return
     names = sorted(set(GRID_NAMES + ODD_NAMES + [p + k for p in PREFIXES for k in KW + [""]]))
